@@ -37,7 +37,8 @@ def category(fn, what, args):
 
 LITERAL = {'num': '2', 'zero': '0', 'neg': '-1', 'frac': '2.5', 'big': '1000', 'text': '"abc"',
            'numtext': '"3"', 'empty': '""', 'true': 'TRUE', 'false': 'FALSE', 'na': '#N/A',
-           'div0': '#DIV/0!', 'lit': '{1,2;3,4}', 'literr': '{1,#DIV/0!}'}
+           'div0': '#DIV/0!', 'lit': '{1,2;3,4}', 'literr': '{1,#DIV/0!}',
+           'datetext': '"1/2/2020"', 'farDate': '"1/1/10000"'}
 
 
 def ref_values():
@@ -274,7 +275,7 @@ def main():
     for fn, args, must, rname, formula, ans, note, ok in res[:6]:
         rep.sample({'formula': formula, 'answer': ans})
     rep.cov['rule'] = ('every function of the table x every admissible argument count (variadic: up '
-                       'to 3) x argument tuples over 19 descriptors (numbers, text, numeric text, '
+                       'to 3) x argument tuples over 21 descriptors (numbers, text, numeric text, date text, '
                        'empty text, logicals, blank reference, two error values, referenced row / '
                        'column / row with an error / mixed row, array literal with and without an '
                        'error): all tuples up to 3 arguments, all pairs of positions beyond; '
